@@ -26,6 +26,8 @@ pub struct Cfg {
     pub savedir: Option<String>,
     /// `order=le`: the index probe uses a key type ordered as a little-endian number (its order is NOT the byte order)
     pub key_le: bool,
+    /// `prefix=`: blob file name prefix (default `t`; the file commands of the harness assume the default)
+    pub prefix: String,
 }
 
 impl Default for Cfg {
@@ -45,6 +47,7 @@ impl Default for Cfg {
             usedir: None,
             savedir: None,
             key_le: false,
+            prefix: "t".to_string(),
         }
     }
 }
@@ -80,6 +83,7 @@ pub fn parse_cfg(script: &str) -> Cfg {
                     "init" => c.lazy = v == "lazy",
                     "nomodel" | "bloombits" => {}
                     "order" => c.key_le = v == "le",
+                    "prefix" => c.prefix = v.to_string(),
                     "usedir" => c.usedir = Some(v.to_string()),
                     "savedir" => c.savedir = Some(v.to_string()),
                     _ => panic!("unknown cfg key {}", k),
@@ -118,7 +122,7 @@ impl<const N: usize> St<N> {
     fn builder(&self) -> Builder {
         let mut b = Builder::new()
             .work_dir(&self.dir)
-            .blob_file_name_prefix("t")
+            .blob_file_name_prefix(self.cfg.prefix.clone())
             .max_blob_size(self.cfg.maxsize)
             .max_data_in_blob(self.cfg.maxrec)
             .set_bloom_filter_group_size(self.cfg.group)
@@ -163,7 +167,7 @@ impl<const N: usize> St<N> {
     }
 
     fn file_path(&self, kind: &str, id: &str) -> PathBuf {
-        self.dir.join(format!("t.{}.{}", id, kind))
+        self.dir.join(format!("{}.{}.{}", self.cfg.prefix, id, kind))
     }
 
     /// take the tap's events, remembering what successful syncs covered
@@ -199,18 +203,41 @@ fn ts_of(t: BlobRecordTimestamp) -> u64 {
     t.into()
 }
 
-async fn entries_str<const N: usize>(st: &St<N>, entries: Vec<pearl::Entry>) -> String {
+async fn entries_str<const N: usize>(st: &St<N>, entries: Vec<pearl::Entry>, again: Option<Vec<pearl::Entry>>) -> String {
+    // `again`: the same query asked a second time; its entries go through the other two public ways to an entry's content
+    // (`load_data`, `load_meta`: code paths of their own), which must agree with `load` on the first list. The first
+    // list is left untouched before `load` (a preloaded meta would change what `load` does).
+    let mut side: Vec<(Option<Vec<u8>>, Option<String>)> = Vec::new();
+    if let Some(es2) = again {
+        for mut e in es2 {
+            let ld = e.load_data().await.ok().map(|b| b.to_vec());
+            let lm = e.load_meta().await.ok().map(|m| m.map(|x| meta_name(x).to_string()).unwrap_or_else(|| "m0".to_string()));
+            side.push((ld, lm));
+        }
+    }
+    let n = entries.len();
     let mut parts = Vec::new();
-    for e in entries {
+    for (i, e) in entries.into_iter().enumerate() {
         let ts = ts_of(e.timestamp());
         let del = e.is_deleted();
+        let sd = if side.len() == n { Some(&side[i]) } else { None };
         match e.load().await {
             Ok(rec) => {
                 let m = meta_name(rec.meta());
                 let d = rec.into_data();
-                parts.push(format!("({},{},{},{})", ts, if del { 1 } else { 0 }, m, st.data_name(&d).replace(' ', ":")));
+                let mut extra = String::new();
+                if let Some((ld, lm)) = sd {
+                    match ld { Some(x) if x[..] == d[..] => {} Some(_) => extra.push_str(",LOAD_DATA_DIFFERS"), None => extra.push_str(",LOAD_DATA_FAILS") }
+                    match lm { Some(x) if x.as_str() == m || (x.as_str() == "m0" && m == "-") => {} Some(x) => extra.push_str(&format!(",LOAD_META_DIFFERS:{}", x)), None => extra.push_str(",LOAD_META_FAILS") }
+                }
+                parts.push(format!("({},{},{},{}{})", ts, if del { 1 } else { 0 }, m, st.data_name(&d).replace(' ', ":"), extra));
             }
-            Err(err) => parts.push(format!("({},{},Err:{})", ts, if del { 1 } else { 0 }, err_class(&err))),
+            Err(err) => {
+                let cls = err_class(&err);
+                // a record whose data fails its checksum in `load` must not be handed out by `load_data`
+                let extra = if cls.contains("DataChecksum") && sd.map_or(false, |x| x.0.is_some()) { ",LOAD_DATA_ACCEPTS_ALTERED_BYTES" } else { "" };
+                parts.push(format!("({},{},Err:{}{})", ts, if del { 1 } else { 0 }, cls, extra))
+            }
         }
     }
     format!("[{}]", parts.join(" "))
@@ -373,7 +400,9 @@ async fn exec<const N: usize>(st: &mut St<N>, ctx: &mut Ctx, toks: &[&str]) {
             };
             match r {
                 Ok(es) => {
-                    let s = entries_str(st, es).await;
+                    let k2 = key_of::<N>(key);
+                    let again = if c == "RA" { s.read_all(k2).await.ok() } else { s.read_all_with_deletion_marker(k2).await.ok() };
+                    let s = entries_str(st, es, again).await;
                     ctx.emit(format!("{} {}", c, s))
                 }
                 Err(e) => ctx.emit(format!("{} Err {}", c, err_class(&e))),
@@ -939,6 +968,16 @@ async fn exec<const N: usize>(st: &mut St<N>, ctx: &mut Ctx, toks: &[&str]) {
                             'M' => {
                                 match (x >> 7) % 3 { 0 => { let _ = s.try_close_active_blob().await; } 1 => { s.force_update_active_blob(|_| true).await; } _ => { let _ = s.free_excess_resources().await; } }
                                 "M:0:0:0:ok".to_string()
+                            }
+                            'S' => {
+                                // the statistics calls take the closed-blobs lock first and the active blob's lock inside it
+                                match (x >> 7) % 4 {
+                                    0 => { let _ = s.records_count().await; }
+                                    1 => { let _ = s.records_count_detailed().await; }
+                                    2 => { let _ = s.disk_used().await; }
+                                    _ => { let _ = s.blobs_count().await; let _ = s.records_count_in_active_blob().await; }
+                                }
+                                "S:0:0:0:ok".to_string()
                             }
                             _ => "?".to_string(),
                         };
